@@ -67,6 +67,16 @@ let main (spec : bool) (rest : string list) : unit =
         Printf.printf "N %s %s %d %d\n" pn an
           (if M.arg_compatible (M.DType p) a then 1 else 0)
           (if M.param_accepts (M.Optional (M.DType p)) a then 1 else 0)) kinds) kinds
+  | ["--conv"] ->
+    (* the conversion table of Bind/Handover.v: V <conversion> <kind> 0|1 *)
+    let convs = [ "CBool", M.CBool; "CU8", M.CU8; "CU16", M.CU16; "CU32", M.CU32; "CU64", M.CU64;
+                  "CSock4", M.CSock4; "CIp4", M.CIp4; "CBuf", M.CBuf; "CPktGen", M.CPktGen; "CPkt", M.CPkt;
+                  "COptIp4", M.COptIp4; "COptU64", M.COptU64; "COptU32", M.COptU32; "COptU16", M.COptU16;
+                  "COptU8", M.COptU8; "COptBuf", M.COptBuf; "CAsRef", M.CAsRef ] in
+    List.iter (fun (kn, k) ->
+      if kn <> "Type" then
+        List.iter (fun (cn, c) ->
+          Printf.printf "V %s %s %d\n" cn kn (if M.conv_defined c k then 1 else 0)) convs) kinds
   | ["--wf"] ->
     List.iter (fun (f : M.funcdef) ->
       Printf.printf "%s %d\n" (ostring f.M.fd_key) (if M.wf_sig f then 1 else 0)) M.catalogue
@@ -80,4 +90,4 @@ let main (spec : bool) (rest : string list) : unit =
        done
      with End_of_file -> ());
     flush oc
-  | _ -> prerr_endline "usage: rsmodel_bind (bind|spec) <cases-file|-> | bind --compat | bind --wf"; exit 2
+  | _ -> prerr_endline "usage: rsmodel_bind (bind|spec) <cases-file|-> | bind --compat | bind --wf | bind --conv"; exit 2
